@@ -232,7 +232,10 @@ def run_table(case, ctx):
 
         X, y, w = relayout(X), relayout(y), relayout(w)
         keep = [None if a is None else a.copy() for a in (X, y, w)]
-        m = make_model((past + delay2 + ncol + n) % 4, past, delay2)
+        npint = (n + past + delay2) % 3 == 0        # past / delay2 as numpy.int64 (values read from an array)
+        cfg["numpy_int_params"] = npint
+        m = make_model((past + delay2 + ncol + n) % 4, numpy.int64(past) if npint else past,
+                       numpy.int64(delay2) if npint else delay2)
         try:
             plain = build_ts_X_y(m, X, y, w, same_rows=False)
             padded = build_ts_X_y(m, X, y, w, same_rows=True)
